@@ -64,6 +64,11 @@ CLAIMED = {
    text="TLC enumerates every record of the VT family that carries defaulted fields (every primitive, enum, fixed, typeref, record, union, empty and non-empty array and map literal; declared directly, in a nested required record, and inherited through one and two levels of include) and every subset of those fields omitted, and checks the declarative statement on Canon. Each document is decoded by the JSON, header, path, query and untyped readers and compared with Canon(doc); each New<X>WithDefaultValues is compared with DefaultInstance; one instance's default-populated arrays, maps and byte strings are overwritten in place and a second and a later instance re-compared.",
    note="open known finding: defaults inherited through an included record are neither decoded nor constructed (IncMid, IncTop)",
    design="5/C13"),
+ "C11": dict(
+   technique="TLA+ spec Patch.tla (partial updates as per-field operation sets, Legal, the patch/$set/$delete tree; union / enum / fixed validity) checked by TLC (a legal patch is recoverable from its wire shape); every case exported and replayed on generated bindings: encode must fail iff the specification says illegal, the equivalent document must be rejected iff illegal, legal ones round-trip in the prescribed shape",
+   text="TLC enumerates every combination of {delete, set, nested patch} per field of Ent and Leaf partial updates (nested to depth 1) under 5 exclusion sets, every subset of members of every union, every enum ordinal from -1 to n+1 and every fixed length from 0 to size+1, with the legality the property prescribes. The harness builds each partial-update struct / union / enum by reflection, encodes it with the real writer configured with the exclusion spec and decodes the reference document with the real reader (leading scope 1): errors must occur exactly for the illegal cases, legal partial updates must produce the protocol tree (the $delete list compared as a set) and decode back to the same operations; unknown enum symbols must decode to the unknown value.",
+   note="setting a whole record field one of whose sub-fields is excluded is unspecified and skipped; deleting a required field is only expressible as a document",
+   design="5/C11"),
 }
 
 NOT_YET = {}
